@@ -324,6 +324,8 @@ pub fn run(ctx: &mut Ctx) -> Result<(), Violation> {
                 (c) every earlier handle keeps its structure and table; (d) the unique table contains both leaves, maps each structure to itself, and every sub-diagram reachable from any handle is that very allocation (Rc::ptr_eq); (e) DOT export declares exactly the structurally distinct tests and references only declared ids. \
                 A second mode lets the caller drop every handle older than k (1..4) steps, with extra `clean` calls, rebuilding dropped operands from their truth tables in the same environment. Thorough adds histories of up to 300 operations and the libFuzzer target `history`. Non-trivial = history of >= 10 operations in which a handle older than 5 steps is used again; distinct by operation list."
         .to_string();
+    ctx.rule.push_str(" Wide histories: 2..6 expressions over one wide layout (see below), most of them near copies of an earlier one (one literal flipped, dropped or added near the bottom of a long cube / clause), evaluated through var/not/and/or/xor/eq/implies/ite in ONE environment - in a share of the cases an environment that already holds 2^16 or 2^17+ unrelated nodes; every result must be the reference function, structurally identical to the result in a fresh environment, made of shared nodes, and every earlier result must keep its function; equal functions must be one node, different ones must compare unequal. ");
+    ctx.rule.push_str(crate::wide::RULE);
     ctx.assume("all handles given to an environment were produced by that environment (the library's precondition)");
     ctx.assume("formulas sharing an environment use one common ordering covering all their names (ids must mean the same name)");
 
@@ -348,6 +350,8 @@ pub fn run(ctx: &mut Ctx) -> Result<(), Violation> {
         check_history_keep(&opsv, keep, Some(st))
     });
     ctx.stage("random-histories-dropping-old-handles", false, r)?;
+    let wc = ctx.tier.cases(2_000, 80_000);
+    crate::wide::stage_history(ctx, "wide-histories-of-near-copies", wc)?;
 
     if ctx.tier == Tier::Thorough {
         let r = par_random(ctx, "long-histories", 3_000, 3000, |tape, st| {
@@ -368,6 +372,9 @@ pub fn run(ctx: &mut Ctx) -> Result<(), Violation> {
 }
 
 pub fn replay(case: &Value) -> Check {
+    if let Some(r) = crate::wide::replay(case) {
+        return r;
+    }
     match case["kind"].as_str() {
         Some("history") => match ops::ops_from_json(&case["ops"]) {
             Some(o) => check_history_keep(&o, case["keep"].as_u64().unwrap_or(0) as usize, None),
